@@ -1,4 +1,4 @@
-_T = "C06_blocks_spec / C06_consume_token_spec (tokens), C06_tokenize_total (no panic), C06_positions_spec (line / byte column), C06_important_spec / C06_declaration_spec / C06_decl_list_compositional / C06_rule_list_compositional (parsers), C06_nth_spec (An+B)"
+_T = "C06_blocks_spec / C06_consume_token_spec (tokens), C06_tokenize_total (no panic), C06_positions_spec (line / byte column), C06_important_spec / C06_declaration_draft_spec / C06_decl_list_compositional / C06_rule_list_compositional / C06_blocks_contents_compositional / C06_blocks_item_spec (parsers), C06_nth_spec (An+B)"
 SPEC = {
     "id": "C06",
     "harness": "c06",
@@ -23,7 +23,7 @@ SPEC = {
     "rule": "SplitMix64-seeded: corpus (witnesses of the fixed defects), all strings of length <= 2 (thorough 3) over a 21-symbol alphabet, every prefix (end of input after every code point) of ~200 well-formed constructs covering every scanner and look-ahead (bare, one nesting level down, and through the fitting parser entry point), per-scanner exhaustive neighbourhoods (heads such as u+ 1e url( ' \\ # @ followed by all strings of length <= 2..4 over the symbols that scanner distinguishes; ~7000 inputs, all deterministic), every prefix of a sample of the generated texts, random short strings, grammar-directed token soups with escapes and nesting depth <= 6, declaration-list / rule-list / An+B shaped texts, css-parsing-tests inputs, and prefix / single-rune deletion / replacement / insertion mutations of all of them; entry points Tokenize (both modes), ParseStylesheetBytes, ParseBlocksContentsString, ParseDeclarationListString, ParseOneDeclaration, ParseNth; non-trivial = at least 2 code points; distinct by (entry point, flags, source)",
 }
 MANIFEST = {
-    "text": "Coq model of css/parser tokenizer.go / parser.go / nth.go (line-by-line port over code points, panics visible) proved total and proved equal, for every valid UTF-8 text, to an independent two-phase transcription of CSS Syntax Level 3 (3.3 preprocessing, 4.3 consume-a-token incl. escapes/strings/urls/numbers, 5.4.7-9 blocks and functions) modulo a documented presentation map; declaration lists / rule lists proved compositional at ';' / '{}' (exact error recovery), !important and declarations proved = 5.4.6, ParseNth proved = the <an+b> grammar, positions proved = (1+newlines, 1+bytes since newline) per iteration. The model is compared with /repo on every run by vm_compute on complete token / compound trees (flags, byte positions) for six entry points.",
-    "note": "Trusted: Coq kernel (vm_compute), Go harness + hook css/parser/verif_export_c06.go, strconv (number values), F32 rounding model for Int(). Valid UTF-8 only. Partial: text-level compositionality is stated (C06_text_compositional_statement, validated on all short strings) with the token-level theorem proved; the {} rule of the css-syntax draft inside declarations and ParseBlocksContents have no spec theorem (model = implementation only); positions are proved per iteration, not as a predicate over the tree; colors.go not modelled. Six spec deviations of /repo were found and fixed (5 in the tokenizer/parser found by the model, 1 found by the proof of important_spec).",
+    "text": "Coq model of css/parser tokenizer.go / parser.go / nth.go (line-by-line port over code points, panics visible) proved total and proved equal, for every valid UTF-8 text, to an independent two-phase transcription of CSS Syntax Level 3 (3.3 preprocessing, 4.3 consume-a-token incl. escapes/strings/urls/numbers, 5.4.7-9 blocks and functions) modulo a documented presentation map; declaration lists / rule lists proved compositional at ';' / '{}' (exact error recovery), !important and declarations proved = 5.4.6 plus the {} rule of the css-syntax draft (every token list), ParseBlocksContents proved compositional at ';' / '{}' with each item = the draft's declaration-else-nested-rule (spec_item), ParseNth proved = the <an+b> grammar, positions proved = (1+newlines, 1+bytes since newline) per iteration. The model is compared with /repo on every run by vm_compute on complete token / compound trees (flags, byte positions) for six entry points.",
+    "note": "Trusted: Coq kernel (vm_compute), Go harness + hook css/parser/verif_export_c06.go, strconv (number values), F32 rounding model for Int(). Valid UTF-8 only. Partial: text-level compositionality is stated (C06_text_compositional_statement, validated on all short strings) with the token-level theorem proved; ParseBlocksContents ends an item right after its first {} block where the css-syntax draft lets a declaration run to the ';' (documented, part of spec_item); positions are proved per iteration, not as a predicate over the tree; colors.go not modelled. Seven spec deviations of /repo were found and fixed (5 in the tokenizer/parser found by the model, 2 found by the proofs of important_spec and declaration_draft_spec).",
     "technique": "Coq proof over executable model + vm_compute correspondence with the Go implementation",
 }
